@@ -74,6 +74,10 @@ Inductive stmt :=
 | SWhile (p : pos) (c : expr) (body : list stmt)
 | SDo (p : pos) (top until : bool) (c : expr) (body : list stmt)
 | SFor (p : pos) (v : name) (lo hi : expr) (step : option expr) (body : list stmt)
-| SSelect (p : pos) (e : expr) (cases : list (list case_expr * list stmt)) (els : option (list stmt)).
+| SSelect (p : pos) (e : expr) (cases : list (list case_expr * list stmt)) (els : option (list stmt))
+| SData (p : pos) (items : list expr)
+| SRead (p : pos) (targets : list (name * pos)).
 
 Definition program := list stmt.
+
+Definition is_data (s : stmt) : bool := match s with SData _ _ => true | _ => false end.
